@@ -23,9 +23,9 @@
 
 enum {
     C_FE_PROG, C_FE_NT, C_FE_MAG_GT1, C_FE_MAG_GE16, C_FE_RAW, C_FE_BOUNDS, C_FE_EDGE, C_FE_MUL_MAG8, C_FE_RAW_GE_P,
-    C_FE_SQRT_NONSQ, C_FE_INV_ZERO, C_FE_LIMIT_REJECT, C_FE_MUL_CHOSEN, C_FE_MUL_QUOT, C_FE_SQR_CHOSEN, C_FE_RESULT_WINDOW,
+    C_FE_SQRT_NONSQ, C_FE_INV_ZERO, C_FE_LIMIT_REJECT, C_FE_MUL_CHOSEN, C_FE_MUL_QUOT, C_FE_SQR_CHOSEN, C_FE_RESULT_WINDOW, C_FE_LIMBPROD,
     C_SC_PROG, C_SC_NT, C_SC_EDGE, C_SC_LOAD_OVERFLOW, C_SC_ADD_OVERFLOW, C_SC_INV_ZERO, C_SC_SPLIT_LAMBDA, C_SC_MUL_SHIFT,
-    C_SC_CADD_BIT, C_SC_GETBITS_CROSS, C_SC_MUL_CHOSEN, C_SC_MUL_QUOT, C_SC_SQR_CHOSEN, C_SC_ADD_CHOSEN, C_SC_SHIFT_CHOSEN, C_SC_RESULT_WINDOW,
+    C_SC_CADD_BIT, C_SC_GETBITS_CROSS, C_SC_MUL_CHOSEN, C_SC_MUL_QUOT, C_SC_SQR_CHOSEN, C_SC_ADD_CHOSEN, C_SC_SHIFT_CHOSEN, C_SC_RESULT_WINDOW, C_SC_LIMBPROD_MUL, C_SC_LIMBPROD_SQR, C_LIMBPROD_DBL_ONES,
     C_MI_P, C_MI_N, C_MI_CUSTOM, C_MI_ZERO, C_MI_JACOBI_UNDECIDED, C_MI_NT,
     C_I128_PROG, C_I128_NT,
     C_H_SHA, C_H_HMAC, C_H_HMAC_LONGKEY, C_H_RFC6979, C_H_TAGGED, C_H_MIDSTATE, C_H_API_TAGGED, C_H_MULTIWRITE,
@@ -39,9 +39,9 @@ enum {
 };
 const char *const VF_CLASS_NAMES[] = {
     "fe_prog", "fe_nontrivial", "fe_operand_mag_gt1", "fe_operand_mag_ge16", "fe_raw_limbs", "fe_get_bounds", "fe_edge_const", "fe_mul_mag8",
-    "fe_raw_value_ge_p", "fe_sqrt_nonsquare", "fe_inv_zero", "fe_b32_limit_reject", "fe_mul_chosen_result", "fe_mul_chosen_quotient", "fe_sqr_chosen_result", "fe_result_in_fold_window",
+    "fe_raw_value_ge_p", "fe_sqrt_nonsquare", "fe_inv_zero", "fe_b32_limit_reject", "fe_mul_chosen_result", "fe_mul_chosen_quotient", "fe_sqr_chosen_result", "fe_result_in_fold_window", "fe_limbprod",
     "sc_prog", "sc_nontrivial", "sc_edge_const", "sc_load_overflow", "sc_add_overflow", "sc_inv_zero", "sc_split_lambda", "sc_mul_shift",
-    "sc_cadd_bit", "sc_getbits_cross_limb", "sc_mul_chosen_result", "sc_mul_chosen_quotient", "sc_sqr_chosen_result", "sc_add_chosen_result", "sc_mul_shift_chosen", "sc_result_in_fold_window",
+    "sc_cadd_bit", "sc_getbits_cross_limb", "sc_mul_chosen_result", "sc_mul_chosen_quotient", "sc_sqr_chosen_result", "sc_add_chosen_result", "sc_mul_shift_chosen", "sc_result_in_fold_window", "sc_limbprod_mul", "sc_limbprod_sqr", "limbprod_doubled_high_all_ones",
     "modinv_p", "modinv_n", "modinv_custom_modulus", "modinv_zero", "jacobi_undecided", "modinv_nontrivial",
     "int128_prog", "int128_nontrivial",
     "h_sha256", "h_hmac", "h_hmac_key_gt64", "h_rfc6979", "h_init_tagged", "h_module_midstate", "h_api_tagged_sha256", "h_multi_write",
@@ -219,6 +219,87 @@ static int tgt_result(mpz_t t, const mpz_t m, const mpz_t C) {
     mpz_mul_ui(T_u, C, 3);
     win = mpz_cmp(t, C) >= 0 && mpz_cmp(t, T_u) < 0;
     return win;
+}
+
+
+/* ------------------------------------------------------------------ chosen LIMB PRODUCTS
+ * Carry chains inside the multi-limb product (before any reduction) depend on limb PAIRS whose partial product a_i*b_j has a special high
+ * word (all-ones after doubling, 0x7FF..F, 0x800..0, ...) while the running accumulator carries.  For a limb width W (64/32: scalars,
+ * 52/26: field) a limb a_i is drawn from a limb edge set, a target partial product T = H*2^W + L with such a high word H is drawn, and
+ * the partner limb is a_j = floor or ceil(T / a_i) (isqrt(T) for i == j); the remaining limbs are 0 / all-ones / random / the same pattern.
+ * same != 0: one operand carries both limbs (squaring), B is set equal to A.  Values are < 2^(W*NL). */
+static uint64_t lp_isqrt(unsigned __int128 v) {
+    uint64_t r = 0; int b;
+    for (b = 63; b >= 0; b--) { uint64_t c = r | ((uint64_t)1 << b); if ((unsigned __int128)c * c <= v) r = c; }
+    return r;
+}
+static uint64_t lp_limb(unsigned W) {
+    uint64_t mask = W == 64 ? ~(uint64_t)0 : (((uint64_t)1 << W) - 1), top = (uint64_t)1 << (W - 1);
+    unsigned k = U8();
+    switch (k % 16) {
+    case 0: return top;
+    case 1: return mask;
+    case 2: return lp_isqrt((unsigned __int128)1 << (2 * W - 1));            /* ~ 2^(W - 1/2): its square has high word ~ 0x7FF..F */
+    case 3: return lp_isqrt((unsigned __int128)1 << (2 * W - 1)) + 1;
+    case 4: return 1 + (k >> 4);
+    case 5: return (uint64_t)1 << (W / 2);
+    case 6: return ((uint64_t)1 << (W / 2)) - 1;
+    case 7: return mask - 1;
+    case 8: return top - 1;
+    case 9: return top + 1;
+    case 10: return 0x5555555555555555ULL & mask;
+    case 11: return 0xAAAAAAAAAAAAAAAAULL & mask;
+    case 12: return lp_isqrt(W == 64 ? ~(unsigned __int128)0 : (((unsigned __int128)1 << (2 * W)) - 1));          /* ~ 2^W - 1 .. its square just below 2^(2W) */
+    default: { uint64_t v = U64() & mask; return v ? v : 1; }
+    }
+}
+/* returns 1 when the doubled partial product has an all-ones high word (the "second overflow" situation of muladd2) */
+static int limbprod_build(mpz_t A, mpz_t B, unsigned W, unsigned NL, int same) {
+    uint64_t mask = W == 64 ? ~(uint64_t)0 : (((uint64_t)1 << W) - 1), top = (uint64_t)1 << (W - 1);
+    uint64_t la[10], lb[10], ai, aj, H, L; unsigned i = U8() % NL, j = U8() % NL, hk = U8(), lk = U8(), fa = U8(), fb = U8(), x;
+    unsigned __int128 T, q; uint8_t rnd[160]; int ones;
+    ai = lp_limb(W); if (ai == 0) ai = 1;
+    switch (hk % 8) {
+    case 0: H = mask; break;
+    case 1: case 2: H = top - 1; break;                                       /* doubled: 0xFF..FE (+ carry of the low word = all-ones) */
+    case 3: H = top; break;
+    case 4: H = mask - 1; break;
+    case 5: H = 0; break;
+    case 6: H = 1; break;
+    default: H = (top >> 1) - 1; break;
+    }
+    H = (H + (uint64_t)(int64_t)((int)((hk >> 3) % 5) - 2)) & mask;
+    switch (lk % 8) {
+    case 0: L = mask; break;
+    case 1: L = top; break;
+    case 2: L = top - 1; break;
+    case 3: L = 0; break;
+    case 4: L = mask - (lk >> 3); break;
+    case 5: L = top + (lk >> 3); break;
+    default: L = U64() & mask; break;
+    }
+    T = ((unsigned __int128)H << W) | L;
+    if (same && i == j) { ai = lp_isqrt(T) + ((hk >> 7) & 1); if (ai > mask) ai = mask; aj = ai; }
+    else { q = T / ai; if ((hk >> 7) & 1) q += (T % ai) != 0; aj = q > mask ? mask : (uint64_t)q; }
+    vf_take(&IN, rnd, sizeof rnd);
+    for (x = 0; x < NL; x++) {
+        uint64_t ra, rb; memcpy(&ra, rnd + 8 * x, 8); memcpy(&rb, rnd + 80 + 8 * x, 8);
+        la[x] = (fa % 4) == 0 ? 0 : (fa % 4) == 1 ? mask : (fa % 4) == 2 ? (ra & mask) : ai;
+        lb[x] = (fb % 4) == 0 ? 0 : (fb % 4) == 1 ? mask : (fb % 4) == 2 ? (rb & mask) : aj;
+        if ((fa >> 2) & 1) la[x] ^= (ra & 3);                                  /* perturb the low bits of the filler */
+        if ((fb >> 2) & 1) lb[x] ^= (rb & 3);
+    }
+    la[i] = ai;
+    if (same) { la[j] = aj; memcpy(lb, la, sizeof la); } else lb[j] = aj;
+    mpz_set_ui(A, 0); mpz_set_ui(B, 0);
+    for (x = NL; x-- > 0;) {
+        mpz_mul_2exp(A, A, W); rg_from_u64(T_u, la[x]); mpz_add(A, A, T_u);
+        mpz_mul_2exp(B, B, W); rg_from_u64(T_u, lb[x]); mpz_add(B, B, T_u);
+    }
+    T = (unsigned __int128)ai * aj;
+    ones = (uint64_t)(((T << 1) >> W) & mask) == mask && ((T >> (2 * W - 1)) == 0);
+    if (ones) vf_class(C_LIMBPROD_DBL_ONES);
+    return ones;
 }
 
 /* ------------------------------------------------------------------ shared library-side state */
